@@ -95,7 +95,7 @@ func init() {
 		Rule:        "seeded merge plans: 2-4 leaf batches (in memory or persisted+re-opened) and 1-3 merges of 1-4 inputs (leaves or earlier outputs), per-input deletion style {nil, empty bitmap, random, all-but-one, sparse, full}, output chunk mode possibly different from the inputs'; plan classes forced every run: identical field lists without drops (byte-copy path), identical with drops, different field lists, empty inputs, nothing survives, chains, tall inputs, single input, update-like; oracle: renumbering maps, Count, reported size vs stat, footer/CRC, stored fields, DocID, DocNumbers, Fields of the re-opened output against model-merge; distinct = (leaf fingerprints, mode, steps); non-trivial = an output with >= 2 survivors",
 		Assumptions: commonAssumptions,
 		Runs:        simple("C05", "plain"),
-		Min: mins(map[string]int64{"merges": 300, "merge_inputs_bytecopy_path": 40, "merge_inputs_reencode_path": 200, "merges_nothing_survives": 20, "merges_depth_2": 30},
+		Min: mins(map[string]int64{"merges": 300, "merge_inputs_bytecopy_path": 40, "merge_inputs_reencode_path": 200, "merges_nothing_survives": 20, "merges_depth_2": 30, "plans_class_tall": 8, "plans_class_tall-edge": 20, "plans_class_xwide": 10, "plans_class_empty-merged": 40},
 			map[string]int64{"merges": 4000, "merge_inputs_bytecopy_path": 500, "merge_inputs_reencode_path": 2500, "merges_nothing_survives": 250, "merges_depth_2": 400}),
 	}
 	props["C06"] = &propSpec{
@@ -103,7 +103,7 @@ func init() {
 		Rule:        "the merge plans of C05 (all plan classes, doc-value chunk sizes {1024,2,5,1,3}); oracle on every merge output: every (field,term) posting with freq/norm/locations, dictionary iteration with counts, doc values under all visit disciplines (one state shared between the output and an input), terms without survivors absent; distinct = (leaf fingerprints, mode, steps); non-trivial = an output with >= 2 survivors",
 		Assumptions: commonAssumptions,
 		Runs:        simple("C06", "plain"),
-		Min: mins(map[string]int64{"merges": 300, "terms_in_2plus_inputs": 1000, "onehit_terms_produced": 500, "onehit_terms_read_from_merged_inputs": 100, "merge_inputs_bytecopy_path": 40, "merge_inputs_reencode_path": 200},
+		Min: mins(map[string]int64{"merges": 300, "terms_in_2plus_inputs": 1000, "onehit_terms_produced": 500, "onehit_terms_read_from_merged_inputs": 100, "merge_inputs_bytecopy_path": 40, "merge_inputs_reencode_path": 200, "plans_class_tall": 8, "plans_class_tall-edge": 20, "plans_class_xwide": 10},
 			map[string]int64{"merges": 4000, "terms_in_2plus_inputs": 15000, "onehit_terms_produced": 8000, "onehit_terms_read_from_merged_inputs": 1500, "merge_inputs_bytecopy_path": 500, "merge_inputs_reencode_path": 2500}),
 	}
 	props["C13"] = &propSpec{
@@ -253,7 +253,7 @@ func init() {
 		Rule:        "the merge plans of C05 over batches with vector fields (all plan classes; tall plans give >= 1000 surviving vectors, i.e. reconstruct + train of a clustered index); oracle on every merge output: C14's vector oracle against model-merge (survivors' vectors under the new numbering, deleted documents' vectors gone, num_vectors, fields without surviving vectors have no index), engine monitor: no native index or selector alive and no misuse once all segments of the plan are closed; distinct = (leaf fingerprints, mode, steps); non-trivial = an output with >= 2 survivors",
 		Assumptions: vecAssumptions,
 		Runs:        vecRuns("C15", 16),
-		Min: mins(map[string]int64{"merges": 300, "vec_searches": 5000, "engine_quiescence_checks": 300},
+		Min: mins(map[string]int64{"merges": 300, "vec_searches": 5000, "engine_quiescence_checks": 300, "plans_class_tall": 8, "vec_results_clustered": 20},
 			map[string]int64{"merges": 4000, "vec_searches": 80000, "engine_quiescence_checks": 3900}),
 	}
 	props["C16"] = &propSpec{
